@@ -50,6 +50,7 @@ type loopInfo struct {
 	modAll  bool
 	mods    map[string]bool
 	oldHeap Heap // heap at loop entry (before havoc), for old-in-loop
+	failAtEntry string
 }
 
 type FnExec struct {
